@@ -23,6 +23,7 @@ import (
 
 	charging_code "github.com/free5gc/chf/ccs_diameter/code"
 	cd "github.com/free5gc/chf/ccs_diameter/datatype"
+	"github.com/free5gc/chf/cdr/asn"
 
 	chf_context "github.com/free5gc/chf/internal/context"
 	"github.com/free5gc/chf/internal/sbi"
@@ -171,6 +172,9 @@ func raceJob(t *testing.T, raw json.RawMessage) (any, error) {
 	if strings.HasPrefix(a.Scen, "peers/") {
 		return racePeersJob(a)
 	}
+	if a.Scen == "codec/concurrent-first-use" {
+		return raceCodecJob(a)
+	}
 	var sc *concScenario
 	for _, s := range concScenarios() {
 		if s.Name == a.Scen {
@@ -237,6 +241,63 @@ func collectRaceReports(scen string, out *raceOut) {
 			}
 		}
 	}
+}
+
+// raceCodecJob: the BER codec used by several goroutines at once, each meeting types the process has not marshalled or
+// unmarshalled before (the charging requests of different subscribers encode their records concurrently; anything the
+// codec remembers per type is shared state).
+func raceCodecJob(a raceArgs) (any, error) {
+	out := raceOut{}
+	var mu sync.Mutex
+	names := sortedKeys(cdrTypeRegistry)
+	for it := 0; it < a.Iters; it++ {
+		// struct types nobody has seen yet: the tag numbers make every iteration's types new
+		var fresh []reflect.Type
+		for k := 0; k < 24; k++ {
+			fresh = append(fresh, reflect.StructOf([]reflect.StructField{
+				{Name: "A", Type: reflect.TypeOf(int64(0)), Tag: reflect.StructTag(fmt.Sprintf(`ber:"tagNum:%d"`, 1000*it+k))},
+				{Name: "B", Type: reflect.PointerTo(asn.OctetStringType), Tag: reflect.StructTag(fmt.Sprintf(`ber:"tagNum:%d,optional"`, 1000*it+k+500))}}))
+		}
+		var wg sync.WaitGroup
+		start := make(chan struct{})
+		for g := 0; g < 8; g++ {
+			g := g
+			wg.Add(1)
+			go func() {
+				defer wg.Done()
+				defer func() {
+					if r := recover(); r != nil {
+						mu.Lock()
+						out.Failed = append(out.Failed, fmt.Sprint(r))
+						mu.Unlock()
+					}
+				}()
+				<-start
+				for i := range fresh {
+					t := fresh[(i+3*g)%len(fresh)]
+					v := reflect.New(t)
+					v.Elem().Field(0).SetInt(int64(g))
+					if b, err := asn.BerMarshal(v.Interface()); err == nil {
+						asn.Unmarshal(b, reflect.New(t).Interface())
+					}
+				}
+				if it == 0 {
+					// the schema types, each goroutine in its own order
+					for i := range names {
+						t := cdrTypeRegistry[names[(i*7+g*13)%len(names)]]
+						if b, err := asn.BerMarshal(reflect.New(t).Interface()); err == nil {
+							asn.Unmarshal(b, reflect.New(t).Interface())
+						}
+					}
+				}
+			}()
+		}
+		close(start)
+		wg.Wait()
+		out.Runs++
+	}
+	collectRaceReports(a.Scen, &out)
+	return out, nil
 }
 
 // racePeersJob: several Diameter peers, each on its own connection, have requests in flight at the rating server
